@@ -162,6 +162,16 @@ for mname, mod in list(sys.modules.items()):
         if d:
             names[mname] = d
 out["module_names"] = names
+regnames = {}
+for mname, mod in list(sys.modules.items()):
+    if mname.startswith("ppci.arch.") and mod is not None:
+        d = {}
+        for k, v in list(vars(mod).items()):
+            if isinstance(v, regmod.Register):
+                d[k] = v.name
+        if d:
+            regnames[mname] = d
+out["register_names"] = regnames
 json.dump(out, sys.stdout)
 '''
 
